@@ -1,6 +1,9 @@
 package exec
 
-import "fmt"
+import (
+	"fmt"
+	"strings"
+)
 
 // Happens-before monitor (vector clocks). Enabled per harness (C20); when
 // disabled every hook is a no-op.
@@ -12,6 +15,7 @@ type hbAccess struct {
 	clock int
 	write bool
 	pos   string
+	what  string
 }
 
 type hbCell struct {
@@ -23,6 +27,48 @@ type hbState struct {
 	cells map[*value]*hbCell
 	races []string
 	seen  map[string]bool
+}
+
+// hbTrackedFn: accesses are monitored when made by code of the package under
+// test (not by harness files, not by the standard library).
+func (ex *Exec) hbTrackedFn(fr *frame) bool {
+	if fr == nil || fr.info == nil {
+		return false
+	}
+	if fr.info.hbTracked == 0 {
+		fr.info.hbTracked = 2
+		fn := fr.fn
+		for fn.Parent() != nil {
+			fn = fn.Parent()
+		}
+		pkg := fn.Pkg
+		if pkg == nil && fn.Origin() != nil {
+			pkg = fn.Origin().Pkg
+		}
+		if pkg == ex.prog.Pkg {
+			pos := fn.Pos()
+			if pos.IsValid() {
+				file := ex.prog.Fset.Position(pos).Filename
+				if !strings.Contains(file, "zz_verif") {
+					fr.info.hbTracked = 1
+				}
+			}
+		}
+	}
+	return fr.info.hbTracked == 1
+}
+
+func hbFuncName(fr *frame) string {
+	fn := fr.fn
+	for fn.Parent() != nil {
+		fn = fn.Parent()
+	}
+	n := fn.String()
+	n = strings.ReplaceAll(n, "github.com/emersion/go-smtp.", "")
+	if fr.fn != fn {
+		n += "$goroutine"
+	}
+	return n
 }
 
 func (ex *Exec) hbOn() bool { return ex.hb != nil }
@@ -115,7 +161,7 @@ func (ex *Exec) hbAccess(p *value, write bool) {
 	if g == nil || g.fr == nil || g.id < 0 {
 		return
 	}
-	if ex.hbFilter != nil && !ex.hbFilter(g.fr) {
+	if !ex.hbTrackedFn(g.fr) {
 		return
 	}
 	c := ex.hb.cells[p]
@@ -123,8 +169,8 @@ func (ex *Exec) hbAccess(p *value, write bool) {
 		c = &hbCell{}
 		ex.hb.cells[p] = c
 	}
-	pos := ex.prog.Fset.Position(g.fr.curPos).String()
-	me := hbAccess{g: g.id, clock: g.vc.at(g.id), write: write, pos: pos}
+	pos := hbFuncName(g.fr)
+	me := hbAccess{g: g.id, clock: g.vc.at(g.id), write: write, pos: pos, what: ex.hbWhat}
 	ordered := func(a *hbAccess) bool {
 		return a.g == g.id || a.clock <= g.vc.at(a.g)
 	}
@@ -136,7 +182,15 @@ func (ex *Exec) hbAccess(p *value, write bool) {
 		if write {
 			k2 = "write"
 		}
-		key := fmt.Sprintf("%s@%s || %s@%s", k1, a.pos, k2, pos)
+		x, y := k1+"@"+a.pos, k2+"@"+pos
+		if x > y {
+			x, y = y, x
+		}
+		what := ex.hbWhat
+		if what == "" {
+			what = a.what
+		}
+		key := fmt.Sprintf("race: %s: %s vs %s", what, x, y)
 		if !ex.hb.seen[key] {
 			ex.hb.seen[key] = true
 			ex.hb.races = append(ex.hb.races, key)
@@ -154,7 +208,6 @@ func (ex *Exec) hbAccess(p *value, write bool) {
 		c.lastWrite = &me
 		c.reads = c.reads[:0]
 	} else {
-		// keep one read per goroutine
 		for i := range c.reads {
 			if c.reads[i].g == g.id {
 				c.reads[i] = me
